@@ -300,11 +300,64 @@ def _ob_zseg(si: int, base: int, pos: int) -> bool:
         return zcheck(si, base, pos)
 
 
+# ---- T.refs: every row of every MESSAGES / GROUPS table of every version carries the reference group-finding needs ----------------
+def _all_tables():
+    out = []
+    for v in T.VERSIONS:
+        lib = T.LIBS[v]
+        for name in sorted(lib.MESSAGES):
+            out.append((v, 'MESSAGES', name))
+        for name in sorted(lib.GROUPS):
+            out.append((v, 'GROUPS', name))
+    return out
+
+
+TABLES = _all_tables()
+NTAB = len(TABLES)
+
+
+def table_ok(i, trace=None):
+    v, kind, name = TABLES[i]
+    lib = T.LIBS[v]
+    ref = getattr(lib, kind)[name]
+    bad = []
+    for row in ref[1]:
+        cname, cref, card, ck = row
+        if ck == 'SEG':
+            # (ANYHL7SEGMENT / ANY pseudo-entries have a reference of their own)
+            if cref is None or (cname in lib.SEGMENTS and cref is not lib.SEGMENTS[cname] and cref != lib.SEGMENTS[cname]):
+                bad.append('%s: segment row without / with a foreign reference' % cname)
+        elif ck == 'GRP':
+            if cref is None or cname not in lib.GROUPS or (cref is not lib.GROUPS[cname] and cref != lib.GROUPS[cname]):
+                bad.append('%s: group row without / with a foreign reference' % cname)
+        else:
+            bad.append('%s: unknown row kind %r' % (cname, ck))
+        if not (isinstance(card, tuple) and len(card) == 2 and card[0] >= 0 and (card[1] == -1 or card[1] >= card[0])):
+            bad.append('%s: cardinality %r' % (cname, card))
+    if trace is not None:
+        trace.append('%s %s[%r]: %s' % (v, kind, name, bad or 'ok'))
+    return not bad
+
+
+def _ob_refs(i: int) -> bool:
+    """
+    pre: 0 <= i < NTAB
+    pre: in_part(i)
+    post: _
+    """
+    i = bsearch(i, NTAB)
+    with concrete():
+        return table_ok(i)
+
+
 def explain(call):
     m = re.match(r'(\w+)\((.*)\)$', call, re.S)
     a, kw = eval('(lambda *a, **k: (a, k))(%s)' % m.group(2))
     tr = []
     try:
+        if m.group(1) == '_ob_refs':
+            table_ok(a[0] if a else kw['i'], tr)
+            return '\n'.join(tr)
         if m.group(1) == '_ob_zseg':
             v = dict(zip(['si', 'base', 'pos'], a)); v.update(kw)
             zcheck(v['si'], v['base'], v['pos'], tr)
@@ -332,6 +385,9 @@ SPEC = {
     'obligations': [
         {'name': 'groups', 'fn': '_ob_groups', 'parts': 32, 'cond_timeout': {'quick': 900, 'thorough': 3000}, 'path_timeout': 60,
          'bound': '%d message structures x %d instances each (2^%d presence choices x 9 repetition choices: once / twice / twice with a shortened second repetition, for two groups)' % (NS, NCHOICE, NBITS)},
+        {'name': 'T.refs', 'fn': '_ob_refs', 'parts': 8, 'cond_timeout': 900, 'path_timeout': 60,
+         'bound': 'ALL %d MESSAGES / GROUPS tables of the 12 versions: every segment row references SEGMENTS[name], every group row '
+                  'GROUPS[name] (group-finding reads a None reference as "not found"), cardinalities well formed' % NTAB},
         {'name': 'zseg', 'fn': '_ob_zseg', 'parts': 16, 'cond_timeout': {'quick': 900, 'thorough': 3000}, 'path_timeout': 60,
          'bound': '%d structures x 3 instances x a Z segment inserted after each of the first %d segments: flattening gives the input '
                   'sequence, find_groups=False encodes identically' % (NS, ZMAXPOS)},
